@@ -489,7 +489,7 @@ pub fn run(ctx: &Ctx) -> i32 {
         ctx.tier,
         ctx.seed,
         "exploration",
-        "after initialize / initialized: random scripts (<= 60 messages) over didOpen, didChange with 0 / 1 / 2 content changes, semanticTokens/full for opened / unopened / non-file URIs (numeric and string ids), requests and notifications for unimplemented methods, client responses to ids the server never used, notifications for unopened documents; always followed by shutdown, exit, close of stdin. Ledger (evaluated after process exit): every request id answered exactly once (result or error), no response to an id never sent, no server-originated requests, notifications answered only by publishDiagnostics (at most one per didOpen/didChange), exit status 0. Non-trivial: >= 1 request besides the handshake and >= 1 message that is not a single-change didChange; distinct by script.",
+        "after initialize / initialized: random scripts (<= 60 messages) over didOpen, didChange with 0 / 1 / 2 content changes, semanticTokens/full for opened / unopened / non-file URIs (numeric and string ids), requests and notifications for unimplemented methods, client responses to ids the server never used, notifications for unopened documents, the same semanticTokens request asked two or three times at once (own ids), documents of 60 / 300 / 1500 statements or declarations and deep ones, texts with lone-CR line ends; always followed by shutdown, exit, close of stdin. Ledger (evaluated after process exit): every request id answered exactly once (result or error), no response to an id never sent, no server-originated requests, notifications answered only by publishDiagnostics (at most one per didOpen/didChange), exit status 0. Non-trivial: >= 1 request besides the handshake and >= 1 message that is not a single-change didChange; distinct by script.",
     );
     let gates = ctx.gates_for("C12");
     let off = gates.off_list();
